@@ -187,6 +187,10 @@ theorem partT_withIdx (f : Frag) (i : Nat) (b : PBox) (σ : Option Resume) (fl :
     PartT (f.withIdx i) b σ fl := by
   cases f <;> cases b <;> simp only [Frag.withIdx, PartT] at h ⊢ <;> exact h
 
+theorem partT_cutEnd (f : Frag) (b : PBox) (σ : Option Resume) (fl : Bool) (h : PartT f b σ fl) :
+    PartT f.cutEnd b σ fl := by
+  cases f <;> cases b <;> simp only [Frag.cutEnd, PartT] at h ⊢ <;> exact h
+
 mutual
 theorem partT_mono : (f : Frag) → ∀ b σ fl, PartT f b σ fl → PartT f b σ true
   | .para id idx st n g lines, b, σ, fl => by
